@@ -12,8 +12,8 @@ REPO = os.environ.get("VERIF_REPO", "/repo")
 CRATE = os.path.join(REPO, "dds")
 HARNESS_DIR = os.path.join(VERIF, "harness", "incrate")
 BUILD = os.environ.get("VERIF_BUILD_DIR", os.path.join(VERIF, ".build"))
-EVIDENCE = os.path.join(VERIF, "evidence")
-REPLAYS = os.path.join(VERIF, "replays")
+EVIDENCE = os.environ.get("VERIF_EVIDENCE_DIR", os.path.join(VERIF, "evidence"))  # seeded/run_all.sh redirects it
+REPLAYS = os.environ.get("VERIF_REPLAYS_DIR", os.path.join(VERIF, "replays"))
 KNOWN_FINDINGS = os.path.join(VERIF, "known_findings.json")
 GUARD = "s2e_systems_dust_dds_verif"
 N_TARGET_DIRS = int(os.environ.get("VERIF_SLOTS", "6"))  # machine-wide cap on concurrent cargo-kani runs (shared .build)
